@@ -114,10 +114,11 @@ func Assume(c bool) {
 	}
 }
 
+// Assert records a violated assertion and goes on (so that every violated
+// assertion of a run is reported, whichever property owns it).
 func Assert(c bool, id string) {
 	if !c {
 		cur.Failed = append(cur.Failed, id)
-		panic(AssertStop{id})
 	}
 }
 
